@@ -191,7 +191,18 @@ def check(ctx):
         if n['k'] == 'CXXOperatorCallExpr' and n.get('op') == '&=' and \
                 strip_casts(kids(n)[1]).get('ref', {}).get('n') == POS + '::_castling_rights':
             mask = canon(do, kids(n)[2], keep=('side',))
-            gf = [(canon(do, c, keep=('side',)), t) for c, t in guard_facts(do, n)]
+            gf = []
+            for c, t in guard_facts(do, n):
+                k_ = canon(do, c, keep=('side',))
+                # a board cell read directly in the condition after the board has been updated shows the position after the move
+                for x in walk(c):
+                    r_ = x.get('ref') or {}
+                    if r_.get('k') == 'Field' and short(r_['n']) == '_board' and nm.written_before(x, r_['n']):
+                        if nm.written_after(x, r_['n']):
+                            raise AnalysisBroken('do_move: a revocation depends on a board read at %s that lies between two board '
+                                                 'updates' % do.loc(x))
+                        k_ = k_.replace('_board[', "_board'[")
+                gf.append((k_, t))
             rev.append((n, _mask_class(mask), _guard_class(gf)))
     ctx.floor('C02.R3.revocations', len(rev), 1, 'castling-right revocations in do_move')
     want_rev = {
@@ -421,10 +432,19 @@ def _guard_class(gf):
         return ('blocked-by', k)
     kind = who = sqt = None
     for k in true:
-        m = re.match(r'^\((get_piece_kind|make_piece_kind)\(_board\[(from|to)\(move\)\]\)==(KING|ROOK)\)$', k)
-        if m:
-            who = 'moved' if m.group(2) == 'from' else 'captured'
-            kind = m.group(3)
+        m = re.match(r"^\((get_piece_kind|make_piece_kind)\(_board('?)\[(from|to)\(move\)\]\)==(KING|ROOK)\)$", k)
+        if m and m.group(2):
+            # read after the move: the origin square is empty, the target square holds the piece that moved (or was promoted to)
+            if m.group(3) == 'from':
+                return ('reads-the-vacated-origin-square', k)
+            if m.group(4) == 'KING':
+                who, kind = 'moved', 'KING'          # a king is never the result of a promotion
+            else:
+                raise AnalysisBroken('do_move: a rook revocation reads the target square after the move (%s); promotions to a '
+                                     'rook make this differ from the moved piece' % k)
+        elif m:
+            who = 'moved' if m.group(3) == 'from' else 'captured'
+            kind = m.group(4)
         m = re.match(r'^\((from|to)\(move\)==(KING_SIDE|QUEEN_SIDE)_ROOK_SQUARE\[(side|!\(side\))\]\)$', k)
         if m:
             sqt = (m.group(1), m.group(2), 'side' if m.group(3) == 'side' else '!side')
